@@ -10,6 +10,8 @@ SCHEMA = {
     "AbsoluteSequence": {},
     "Sequence": {"_abs": "ref:AbsoluteSequence?", "_rel": "ref:RelativeSequence?", "_abs_stale": "bool", "_rel_stale": "bool"},
     "Bar": {"sequence": "ref:Sequence", "time_signature_numerator": "int", "time_signature_denominator": "int", "key_signature": "enum:Key?"},
+    "Track": {"name": "int?", "bars": "list:ref:Bar", "program": "int?"},
+    "Composition": {"tracks": "list:ref:Track"},
     "MidiTrack": {"name": "int", "messages": "list:ref:MidiMessage"},
     # ghost class for mido.Message / mido.MetaMessage objects (assumed to be records that store their keyword arguments)
     "MidoMsg": {"type": "enum:MidoKind", "note": "int?", "velocity": "int?", "time": "int?", "numerator": "int?", "denominator": "int?", "key": "enum:Key?", "control": "int?", "value": "int?", "channel": "int?", "program": "int?"},
